@@ -588,9 +588,12 @@ def normalize_module_trees(modules: Dict[str, ast.Module]) -> List[str]:
                             nm = f.attr
                             if not private(nm) or nm in non_call_refs:
                                 return None
-                            if method_owner.get(nm) != [cls.name]:
+                            owners = method_owner.get(nm) or []
+                            if len(owners) != 1:
                                 return None
-                            d = [n for n in cls.body if isinstance(n, ast.FunctionDef) and n.name == nm]
+                            # defined in this class, or once in another class of the package (a base class / mixin)
+                            oc = cls if owners == [cls.name] else class_defs[owners[0]]
+                            d = [n for n in oc.body if isinstance(n, ast.FunctionDef) and n.name == nm]
                             if not d or d[0] is fn or not _inlinable_def(d[0]) or _calls(d[0], nm):
                                 return None
                             if "staticmethod" in [ast.unparse(x) for x in d[0].decorator_list]:
